@@ -4,7 +4,7 @@ import common
 
 PROPS = "RotoV.Props.C15"
 MODULES = ["RotoV.Lemmas.ListCap", "RotoV.Lemmas.ListRaw", "RotoV.Lemmas.ListInv", "RotoV.Lemmas.ListRefine", "RotoV.Lemmas.ListNested",
-           "RotoV.Lemmas.ListJoin", "RotoV.Lemmas.ListFor",
+           "RotoV.Lemmas.ListJoin", "RotoV.Lemmas.ListFor", "RotoV.Lemmas.ListSelfEq",
            "RotoV.Model.ListM", "RotoV.Model.ListBase", "RotoV.Model.ListFor"]
 
 
